@@ -53,6 +53,22 @@ theorem C06_stored_is_last_written (C : Codec V) (s : St V) (h : List (Op V × F
     (run C s h).1.store = expectRaw C s.store (lastWritten ((h.map (·.1)).zip (run C s h).2)) :=
   store_run C s h
 
+/-- **Reference-typed values (aliasing).**  `C06_cache_coherent` and `C06_transparent` fix one codec
+for the whole history: they assume that values are immutable, i.e. that the caller does not mutate
+an object it handed to `Set`/`Compute` or received from `Get` (for a pointer-typed `V` the cache
+*is* that object, so such a mutation changes what the cache denotes without any call — no
+implementation can prevent it).  This theorem drops the assumption for the clause that does not
+depend on it: let the codec change arbitrarily between operations (what `enc` yields for a
+reference after the caller mutated the object); then after every history the stored bytes are the
+encoding, **at the time of that call**, of what the last successful `Set`/`Compute` was given
+(`rawAfter`).  In particular a `Set` of an object that was mutated after an earlier `Set` of the
+same object must write the new encoding.  `C06_failure_atomic` is per step and holds for every
+codec already.  The harness runs `TypedValue[*T]` with mutate-after-Set / mutate-after-Get
+histories against `Hive/Model/TypedRef.lean` (this model with a heap-dependent codec). -/
+theorem C06_stored_is_last_written_aliasing (s : St V) (h : List (Codec V × Op V × Faults)) :
+    (runV s h).1.store = rawAfter s.store ((h.zip (runV s h).2).map fun x => (x.1.1, x.1.2.1, x.2)) :=
+  store_runV s h
+
 /-- **Every failure is reported and leaves store and cache unchanged.**  In *any* state, for every
 operation and fault vector: (1) if any call made by the operation failed — a store call, the
 decoder, the encoder (injected or natural) or the compute function — the operation returns the
